@@ -14,7 +14,7 @@ every instance index `n`, every zone index `z < 8`.
 
 The finite part - for ids 0..2000 x zones 0..7 and every prefix, (a) the side condition of
 `instances_disjoint_cond` never fires (`State.degenerate = false`), (b) the ownership spread is
-<= 1 % - is kernel-checked for ids 0..6 (`finite_table`: a reflective checker over the model, proved
+<= 1 % - is kernel-checked for ids 0..16 (`finite_table`: a reflective checker over the model, proved
 sound once, evaluated by `decide +kernel` for zone 0 and carried to all zones by `zone_translation`).
 For ids 7..2000 it is **not** proved: it is
 executed on the model and on the implementation and cross-checked by the judge on every run (a
@@ -221,7 +221,7 @@ theorem new_instance_share (i z : Nat) (hz : z < maxZonesCount) (s : State)
       x.own = (PfC16.ownSum x.tq : Int) := PfC16.new_instance_share hz h hd
 
 /-!
-#### The finite table, kernel-checked for ids 0..`PfC16.tableN` (= 6), all 8 zones, every prefix
+#### The finite table, kernel-checked for ids 0..`PfC16.tableN` (= 16), all 8 zones, every prefix
 
 `PfC16.checkZone0 N` runs the model's generator for zone 0 and checks every intermediate state;
 `Proofs/C16/T0.lean` evaluates it in the kernel (`decide +kernel`; ~1 GB and ~17 s of kernel time
